@@ -179,9 +179,16 @@ def _relations(draw, ctx):
         span = max([last_end] + notes) + draw(st.sampled_from([1, 1, 9]))
         reps = draw(st.sampled_from([10, 40, 130]))
         p0, n0 = list(phrases), list(notes)
+        tail_only = draw(st.booleans())
+        if tail_only:
+            reps = draw(st.sampled_from([40, 130, 400]))
+            notes = []          # a long run of phrases without any note, all notes behind it
         for k in range(1, reps):
             phrases = phrases + [[p[0] + k * span, p[1]] for p in p0]
-            notes = notes + [t + k * span for t in n0]
+            if not tail_only or k == reps - 1:
+                notes = notes + [t + k * span for t in n0]
+        if tail_only:
+            notes = sorted(set(notes) | {reps * span + 1, reps * span + 2})
     return {"phrases": phrases, "notes": notes, "res": draw(st.sampled_from([192, 480, 3, 10 ** 6])), "tempo": tempo,
             "fmt": draw(st.one_of(st.just(0), st.just(0), st.integers(1, 10 ** 6)))}
 
